@@ -33,7 +33,8 @@ pub struct QDesc {
 #[derive(Debug, Clone)]
 pub struct UnitRow {
     pub name: String,
-    pub aliases: Vec<String>,
+    /// (alias, accepts short prefixes, accepts long prefixes)
+    pub aliases: Vec<(String, bool, bool)>,
     pub canonical_name: String,
     pub canonical_short: bool,
     pub canonical_long: bool,
@@ -88,7 +89,11 @@ impl Context {
                 let crate::unit::BaseUnitAndFactor(defining_unit, conversion) = id.unit_and_factor();
                 Some(UnitRow {
                     name: id.name.to_string(),
-                    aliases: md.aliases.iter().map(|(a, _)| a.to_string()).collect(),
+                    aliases: md
+                        .aliases
+                        .iter()
+                        .map(|(a, ap)| (a.to_string(), ap.short, ap.long))
+                        .collect(),
                     canonical_name: id.canonical_name.name.to_string(),
                     canonical_short: id.canonical_name.accepts_prefix.short,
                     canonical_long: id.canonical_name.accepts_prefix.long,
